@@ -758,6 +758,13 @@ def announce_script(rng, name, length, mode="router", dev="tun"):
         if rng.chance(1, 4):
             t += 1
             ops += second(ports, t)
+    # an announcement WITHOUT claims withdraws everything the peer claimed before (a peer that restarted without claims): nothing is routed to it any more
+    for a in (2, 3):
+        ops += ["nseal %d p1 %s" % (a, node_info_hex("<id%d>" % a, [], ["0a000100/24", ip4(a) + "/32"], 300, ["p%d" % a]))] + drain(4)
+        ops += ["nframe 1 %s" % hx(ipv4_packet(ip4(1), "0a000101", b"to the claim") if dev == "tun" else eth_frame("020000000002", "020000000001"))] + drain(4)
+        ops += ["nseal %d p1 %s" % (a, node_info_hex("<id%d>" % a, [], [], 300, ["p%d" % a]))] + drain(4)
+        for d in ("0a000101", ip4(a)):
+            ops += ["nframe 1 %s" % hx(ipv4_packet(ip4(1), d, b"withdrawn") if dev == "tun" else eth_frame("020000000002", "020000000001"))] + drain(4)
     return Script(name, ops, {"suite": "node"})
 
 
@@ -842,6 +849,35 @@ def families_script(rng, name, seconds=4):
             else:
                 f = ipv4_packet(ip4(a), rng.choice([ip4(1), ip4(2), ip4(3), "0a0000aa", "0b000001"]), rng.bytes(rng.below(6)))
             ops += ["nframe %d %s" % (a, hx(f))] + drain(3)
+    return Script(name, ops, {"suite": "node"})
+
+
+def nested_claims_script(rng, name, swap=False, seconds=3):
+    """nested claims whose prefix lengths are NOT multiples of eight (/12, /20, /28, /44) and IPv6 claims nested below a /32: the most specific live claim
+    decides, whatever the order in which the claims were announced (`swap` exchanges the claim sets, and with them the order of announcement)"""
+    ports = [1, 2, 3]
+    ops = ["nkeys 3 %s" % rng.bytes(6).hex()]
+    db8 = "20010db8"
+    ca = ["0a100000/12", db8 + "00" * 12 + "/32", "0a110100/28", db8 + "0002" + "00" * 10 + "/44"]
+    cb = ["0a000000/8", db8 + "0001" + "00" * 10 + "/48", "0a110000/20", db8 + "0002" + "00" * 10 + "/47"]
+    if swap:
+        ca, cb = cb, ca
+    ops.append(node_line(1, key=0, ka="1", claims=["0a000001/32"]))
+    ops.append(node_line(2, key=1, ka="1", claims=ca + ["0a000002/32"]))
+    ops.append(node_line(3, key=2, ka="1", claims=["0a000003/32"] + cb))
+    ops += ["nconnect 1 p3"] + drain(6) + ["nconnect 1 p2"] + drain(6) if swap else connect_chain(3)
+    t = 0
+    v4 = ["0a110101", "0a11010f", "0a110110", "0a110f01", "0a111001", "0a111101", "0a100001", "0a1fffff", "0a200001", "0a0fffff", "0a800001", "0b000001"]
+    v6 = [db8 + "0001" + "00" * 9 + "05", db8 + "0002" + "00" * 9 + "05", db8 + "0003" + "00" * 9 + "05", db8 + "000f" + "00" * 9 + "05", db8 + "0010" + "00" * 9 + "05",
+          "20010db9" + "00" * 11 + "01", db8 + "00" * 11 + "01"]
+    for _ in range(seconds):
+        t += 1
+        ops += second(ports, t)
+    for a in (1, 2, 3):
+        for d in v4:
+            ops += ["nframe %d %s" % (a, hx(ipv4_packet(ip4(a), d, rng.bytes(2))))] + drain(3)
+        for d in v6:
+            ops += ["nframe %d %s" % (a, hx(ipv6_packet("fd0000000000000000000000000000%02x" % a, d, rng.bytes(2))))] + drain(3)
     return Script(name, ops, {"suite": "node"})
 
 
